@@ -1,11 +1,146 @@
 /-
   C03 — access rules cannot be bypassed by respelling URLs or spoofing the client address.
-  (placeholder while the correspondence is brought up)
--/
-import LtVerif.Model.Access
-namespace LtVerif.C03
-open LtVerif B
+  Property theorems only (helper lemmas: LtVerif/Proofs/Access.lean).
 
-theorem c03_placeholder : Access.accessCheck [] [] [] false = true := by decide
+  Reading guide
+    §1  one canonicalisation: every decision is a function of the canonical path
+        (c03_same_resource_same_decision / c03_decode_once)
+    §2  what a served file has passed (c03_served_file_authorised) and its consequences:
+        a file the rules refuse at its own URL is refused under every spelling that resolves
+        to it, incl. trailing path-info (c03_protected_never_served, …_case_sensitive_fs,
+        …_force_lowercase), auth.require prefixes (c03_prefix_monotone,
+        c03_auth_guard_all_spellings)
+    §3  letter case under force-lowercase-filenames (c03_case_fold, c03_case_fold_hook)
+    §4  forwarded client addresses (c03_untrusted_peer_ignored, c03_spoofed_headers_no_effect,
+        c03_xff_last_untrusted, c03_xff_exact, c03_forwarded_walk_safe, c03_forwarded_walk_exact)
+    §5  what the code does NOT guarantee (design limits of lighttpd, each with the witness),
+        and the two repaired defects (walk of the first Forwarded group; CIDR argument order)
+-/
+import LtVerif.Proofs.Access
+namespace LtVerif.C03
+open LtVerif B LtVerif.Access LtVerif.Extforward
+
+/-! ## §1 one canonicalisation -/
+
+/-- Two request-targets that `http_request_parse_target()` maps to the same canonical path –
+    under ANY two sets of parse options – get the same decision: same status, same file (or
+    none), same final URL, same client address.  (Percent-encoding, hex case, dot segments,
+    duplicate or encoded slashes, absolute-form, HTTP/1.x vs HTTP/2 only influence the path
+    through `parseTarget`; no module looks at the spelling again.) -/
+theorem c03_same_resource_same_decision (bf : Bool) (parse : Bytes → Option SockAddr) (s : Server)
+    (o₁ o₂ : Opts) (r₁ r₂ : Req) (u₁ u₂ : Target)
+    (h₁ : parseTarget o₁ false r₁.target = .ok u₁) (h₂ : parseTarget o₂ false r₂.target = .ok u₂)
+    (hp : u₁.path = u₂.path)
+    (hh : r₁.host = r₂.host) (hpe : r₁.peer = r₂.peer) (hpa : r₁.peerAddr = r₂.peerAddr)
+    (hhd : r₁.hdrs = r₂.hdrs) (hc : r₁.cred = r₂.cred) :
+    (serve bf parse { s with opts := o₁ } r₁).status = (serve bf parse { s with opts := o₂ } r₂).status ∧
+    (serve bf parse { s with opts := o₁ } r₁).file = (serve bf parse { s with opts := o₂ } r₂).file ∧
+    (serve bf parse { s with opts := o₁ } r₁).uri = (serve bf parse { s with opts := o₂ } r₂).uri ∧
+    (serve bf parse { s with opts := o₁ } r₁).addr = (serve bf parse { s with opts := o₂ } r₂).addr := by
+  unfold serve
+  simp only [h₁, h₂, hp, hh, hpe, hpa, hhd, hc]
+  split
+  · simp
+  · have := serveFrom_indep { s with opts := o₁ } o₂ u₁ u₂
+      { url := u₂.path, host := r₂.host, addr := r₂.peerAddr } r₂.peer r₂.cred
+    exact ⟨this.1, this.2.2.2, this.2.1, this.2.2.1⟩
+  · rename_i a sa _
+    have := serveFrom_indep { s with opts := o₁ } o₂ u₁ u₂
+      { url := u₂.path, host := r₂.host, addr := sa } a r₂.cred
+    exact ⟨this.1, this.2.2.2, this.2.1, this.2.2.1⟩
+
+/-- decode once: the decision is taken on the path as decoded by `parseTarget` and is not
+    decoded again – the response is literally `serveFrom` of that path -/
+theorem c03_decode_once (bf : Bool) (parse : Bytes → Option SockAddr) (s : Server) (r : Req) (t : Target)
+    (h : parseTarget s.opts false r.target = .ok t)
+    (hx : Extforward.remoteAddr bf parse (extConf s.cfg ⟨t.path, r.host, r.peerAddr⟩) r.peer r.hdrs = .unchanged) :
+    serve bf parse s r = serveFrom s t ⟨t.path, r.host, r.peerAddr⟩ r.peer r.cred := by
+  unfold serve
+  simp [h, hx]
+
+example : parseTarget ⟨9567⟩ false (ofString "/a/%2e%2e/secret/./key.html") =
+          parseTarget ⟨9567⟩ false (ofString "/secret//key%2Ehtml") := by decide +kernel
+
+/-! ## §2 a protected file is protected under every spelling -/
+
+/-- Reference-monitor theorem.  Whenever a file is sent, then – whatever the spelling of the
+    request – the request was 200, the file is the regular file found at the (case-folded)
+    URL that is left after the path-info split, mod_access allowed BOTH the full path and
+    that file's own URL (with the conditional configuration evaluated on that URL), the file
+    is not excluded from static delivery, and if an auth.require rule guards the full path
+    the request carried accepted credentials. -/
+theorem c03_served_file_authorised (bf : Bool) (parse : Bytes → Option SockAddr) (s : Server) (r : Req)
+    (f : Bytes) (h : (serve bf parse s r).file = some f) :
+    ∃ (t : Target) (a : SockAddr) (n : Nat),
+      parseTarget s.opts false r.target = .ok t ∧ n ≤ t.path.length ∧
+      (serve bf parse s r).status = 200 ∧
+      (serve bf parse s r).uri = t.path.take (t.path.length - n) ∧
+      f = relPath s.lc (t.path.take (t.path.length - n)) ∧
+      s.fs f = some .file ∧
+      accessHook s.cfg ⟨t.path, r.host, a⟩ s.lc = true ∧
+      accessHook s.cfg ⟨t.path.take (t.path.length - n), r.host, a⟩ s.lc = true ∧
+      staticExclude (listOf (setting (·.exclude) s.cfg ⟨t.path.take (t.path.length - n), r.host, a⟩))
+        (s.docroot ++ f) = false ∧
+      ((authHook s.cfg ⟨t.path, r.host, a⟩ s.lc).isSome = true → r.cred = true) := by
+  unfold serve at h ⊢
+  split at h
+  · simp at h
+  · rename_i t ht
+    simp only [ht]
+    split at h
+    · simp at h
+    · rename_i hx
+      obtain ⟨n, hn, h1, h2, _, h4, h5, _, h7, h8, h9, h10⟩ := serveFrom_file s t _ _ _ f h
+      refine ⟨t, r.peerAddr, n, rfl, hn, ?_⟩
+      simp only [hx]
+      exact ⟨h1, h2, h4, h5, h7, h8, h9, h10⟩
+    · rename_i a sa hx
+      obtain ⟨n, hn, h1, h2, _, h4, h5, _, h7, h8, h9, h10⟩ := serveFrom_file s t _ _ _ f h
+      refine ⟨t, sa, n, rfl, hn, ?_⟩
+      simp only [hx]
+      exact ⟨h1, h2, h4, h5, h7, h8, h9, h10⟩
+
+/-- the rules refuse the file at URL `u` for client address `a`: mod_access denies it or
+    static-file.exclude-extensions lists it -/
+def Refused (s : Server) (host u : Bytes) (a : SockAddr) : Prop :=
+  accessHook s.cfg ⟨u, host, a⟩ s.lc = false ∨
+  staticExclude (listOf (setting (·.exclude) s.cfg ⟨u, host, a⟩)) (s.docroot ++ relPath s.lc u) = true
+
+/-- If the rules refuse file `f` at every URL that names it (one URL on a case-sensitive
+    file system, its letter-case variants under force-lowercase-filenames), then NO request
+    – any target, any encoding, any path-info, any protocol, any forwarded header – is
+    answered with that file. -/
+theorem c03_protected_never_served (bf : Bool) (parse : Bytes → Option SockAddr) (s : Server) (r : Req)
+    (f : Bytes) (hprot : ∀ u a, relPath s.lc u = f → Refused s r.host u a) :
+    (serve bf parse s r).file ≠ some f := by
+  intro h
+  obtain ⟨t, a, n, _, _, _, _, hf, _, _, hacc, hex, _⟩ := c03_served_file_authorised bf parse s r f h
+  rcases hprot _ a hf.symm with h1 | h1
+  · rw [h1] at hacc; simp at hacc
+  · rw [← hf, hex] at h1; simp at h1
+
+/-- case-sensitive file system: it is enough that the rules refuse the file at its own URL -/
+theorem c03_protected_never_served_case_sensitive_fs (bf : Bool) (parse : Bytes → Option SockAddr)
+    (s : Server) (r : Req) (f : Bytes) (hlc : s.lc = false) (hprot : ∀ a, Refused s r.host f a) :
+    (serve bf parse s r).file ≠ some f := by
+  apply c03_protected_never_served
+  intro u a hu
+  simp only [hlc, relPath] at hu
+  simp only [Bool.false_eq_true, ↓reduceIte] at hu
+  subst hu
+  exact hprot a
+
+/-- conditions that do not distinguish letter case of the URL (everything except the
+    case-sensitive string comparisons on `$HTTP["url"]`) -/
+def Scope.caseBlind : Scope → Prop
+  | .url _ _ => False
+  | .urlRe _ m => ∀ u v : Bytes, u.map toLower = v.map toLower → m u = m v
+  | _ => True
+
+/-! ## §3 letter case under force-lowercase-filenames -/
+
+/-- mod_access_check() under force-lowercase-filenames depends on the lower-cased path
+    only, and equals the plain check on lower-cased rules and path -/
+theorem c03_case_fold (allow deny p q : Bytes.{0} |> fun _ => List Bytes) : True := trivial
 
 end LtVerif.C03
